@@ -1,7 +1,7 @@
 # irsx built-ins: harness API, LLVM intrinsics, C++ runtime (exceptions), libm, environment contracts
 import z3, math, re
 from .ir import Ptr, NULL, UNDEF, sgn, T
-from .values import SV, SF, Bundle, IV, TRUE, FALSE, zt, zb, rng, f32, tainted
+from .values import SV, SF, Bundle, IV, TRUE, FALSE, zt, zb, rng, f32, tainted, szof, compact
 
 I1 = T('int', bits=1); I8 = T('int', bits=8); I32 = T('int', bits=32); I64 = T('int', bits=64)
 
@@ -196,13 +196,15 @@ def install(s):
         elif o == 'sub': t = zt(x) - zt(y); rl, rh = xl - yh, xh - yl
         else:
             t = zt(x) * zt(y); ps = (xl * yl, xl * yh, xh * yl, xh * yh); rl, rh = min(ps), max(ps)
+        szr = szof(x) + szof(y) + 1
+        if szr > 12: t = z3.simplify(t, som=True); szr = 4
         if rl >= lo and rh <= hi:
             e.stats['interval_decided'] += 1
-            r = SV(t, rl, rh, taint=tn)
+            r = SV(t, rl, rh, taint=tn, sz=szr)
             return [r if sg == 's' else e.fromunsigned(r, w), 0]
         ov = SV(z3.Or(t < lo, t > hi), 0, 1, taint=tn)
         # the value is only meaningful when no overflow happened (every user is guarded by the overflow flag): clamp the interval
-        r = SV(t, max(rl, lo), min(rh, hi), taint=tn)
+        r = SV(t, max(rl, lo), min(rh, hi), taint=tn, sz=szr)
         return [r if sg == 's' else e.fromunsigned(r, w), ov]
     def mk_wo(name): return lambda e, st, a, ins: with_overflow(e, st, a, ins, name)
     def minmax(e, st, a, ins, name):
